@@ -36,7 +36,8 @@ CONDS = ["True", "False", "0", "1", "c0", "c1", "not c0", "c0 and c1", "xs"]
 ITERS = ["[]", "[0]", "xs", "range(2)"]
 POINTLESS = ["c0", "1", "'s'", "c0 + 1", "pure(1)", "[emit(70) for _ in [0]]", "emit(71) if c0 else 0", "f'{emit(72)}'", "(lambda q=emit(73): q)",
              "pure(emit(74))", "{1: emit(75)}", "c0 and emit(76)", "-emit(77)", "emit", "[c0, 2]", "None", "...", "(emit(78) for _ in [0])",
-             "xs and xs[0]", "not c0", "pure(c0) + 1", "[x for x in xs]", "{emit(79) for _ in xs}", "(c0, emit(80))[0]"]
+             "xs and xs[0]", "not c0", "pure(c0) + 1", "[x for x in xs]", "{emit(79) for _ in xs}", "(c0, emit(80))[0]",
+             "f'{1:>{emit(81)}}'", "f'{1.5:{emit(8)}.{emit(2)}f}'", "_ = f'{1:{emit(83)}}'", "f'{c0!r:{emit(84)}}'", "xs[::emit(1)]", "xs[emit(0):]"]
 HEADER = "def pure(a):\n    return a + 1\n"
 VALUATIONS = [(c0, c1, xs) for c0 in (False, True) for c1 in (False, True) for xs in ([], [0], [0, 1])]
 RULES = [("fixes", "delete_unreachable_code"), ("fixes", "delete_pointless_statements"), ("fixes", "remove_dead_ifs"), ("fixes", "remove_redundant_else"),
